@@ -104,3 +104,38 @@ def check_truthiness(ctx, rule: str, functions: List[FunctionInfo]) -> int:
             else:
                 ctx.ob(rule, c, True, loc(fi, call), f"elements are {kind}")
     return n
+
+
+def or_default_sites(fi: FunctionInfo):
+    """``<value> or <default>`` used as a *value* (not as a test): a falsy datum (0, 0.0, "") is
+    silently replaced by the default."""
+    par = {}
+    for n in ast.walk(fi.node):
+        for ch in ast.iter_child_nodes(n):
+            par[id(ch)] = n
+    out = []
+    for n in walk_no_nested(fi.node):
+        if isinstance(n, ast.BoolOp) and isinstance(n.op, ast.Or):
+            p = par.get(id(n))
+            in_test = (isinstance(p, (ast.If, ast.While, ast.Assert, ast.IfExp)) and getattr(p, "test", None) is n) or isinstance(p, ast.BoolOp) or (
+                isinstance(p, ast.UnaryOp) and isinstance(p.op, ast.Not)) or isinstance(p, ast.comprehension)
+            if in_test:
+                continue
+            if value_kind(n.values[0]) == "bool":
+                continue
+            out.append(n)
+    return out
+
+
+def check_or_default(ctx, rule: str, functions: List[FunctionInfo]) -> int:
+    n = 0
+    bad = 0
+    for fi in functions:
+        for site in or_default_sites(fi):
+            n += 1
+            bad += 1
+            ctx.ob(rule, construct(fi, f"`{' '.join(unparse(site).split())[:90]}` replaces a falsy value by the default"), False, loc(fi, site),
+                   "0, 0.0 or '' is a legitimate value (a boundary at 0.0, min_freq_mod=0, a category named ''): `x or default` discards it")
+    if bad == 0:
+        ctx.ob(rule, f"{len(functions)} functions: no `value or default` on data / parameters", True, "")
+    return n
